@@ -282,6 +282,51 @@ func init() {
 				}
 			}
 		}
+		// part 5: a bounded file filled to its last page (no spare meta page): a transaction that only frees pages
+		// has to commit - "freeing pages makes exactly that many allocatable again, alloc/free cycles can continue forever"
+		for _, c := range []struct {
+			ps   uint32
+			max  uint64
+			meta uint32
+		}{{1024, 64 * 1024, 0}, {1024, 64 * 1024, 4}, {4096, 256 * 1024, 0}} {
+			d := simdisk.New("full")
+			fl, err := txfile.VerifOpen(d, txfile.Options{PageSize: c.ps, MaxSize: c.max, InitMetaArea: c.meta})
+			if err != nil {
+				continue
+			}
+			rep.Evaluations++
+			func() {
+				defer fl.Close()
+				tx, _ := fl.Begin()
+				var ids []txfile.PageID
+				for step := 64; step >= 1; step /= 2 {
+					for {
+						pages, err := tx.AllocN(step)
+						if err != nil {
+							break
+						}
+						for _, p := range pages {
+							ids = append(ids, p.ID())
+						}
+					}
+				}
+				if err := tx.Commit(); err != nil || len(ids) < 4 {
+					return
+				}
+				rep.count("part5:full-file-free-only-commit", 1)
+				tx, _ = fl.Begin()
+				for _, id := range ids[:3] {
+					if p, err := tx.Page(id); err == nil {
+						p.Free()
+					}
+				}
+				if err := tx.Commit(); err != nil {
+					rep.violate(Violation{Kind: "oracle", Sig: "full-file/free-only-commit-fails",
+						Detail: fmt.Sprintf("file of %d pages of %d bytes (initial meta area %d) filled to the last page: a transaction that only frees 3 pages can not commit: %v", c.max/uint64(c.ps), c.ps, c.meta, err),
+						Replay: map[string]interface{}{"scenario": "full-file-free-only", "page_size": c.ps, "max_size": c.max, "init_meta_area": c.meta}})
+				}
+			}()
+		}
 		// K1: the per-transaction counters (data / meta / overflow pages allocated and freed, pages moved to the meta
 		// area) are part of the allocator state compared with the Coq model after every operation
 		if m, err := model.Start(); err == nil {
